@@ -20,7 +20,8 @@
  *                                               stub convertable / metatype pointer / metatype reference) for every target code listed
  *   T code...                                   mpt_type_traits(code): size and whether the type has init/fini
  *   ts with fmt 0 / 107 'k' / 67 'C' / 115 's' / 24 TypeValFmt: the non-numeric branches of mpt_convert_string
- * src: b y n q i u x t (c for V/C), f d e with values as bit patterns (x...);
+ * src: b y n q i u x t (c for V/C), f d e with values as bit patterns (x...); the value "N" (D V C I) = null source
+ * address / value._addr == 0;
  * text: hex bytes ("-" empty, "NULL" null pointer), for float targets
  * hex/end/erange/bits = what libc answered (end pointer, errno == ERANGE, value) when the case was generated (re-checked here).
  */
@@ -99,6 +100,8 @@ struct srcval { void *p; size_t len; };
 static struct srcval mk_src(int src, const char *txt)
 {
 	struct srcval s;
+	/* "N": no data address at all (MPT_VALUE_INIT(type, 0), a null `from`): the converters read it as 0 */
+	if (!strcmp(txt, "N")) { s.p = 0; s.len = 0; return s; }
 	switch (src) {
 	  case 'c': case 'b': { int8_t v = (int8_t) strtoll(txt, 0, 10); s.len = 1; s.p = exact(1, 0); memcpy(s.p, &v, 1); break; }
 	  case 'y': { uint8_t v = (uint8_t) strtoull(txt, 0, 10); s.len = 1; s.p = exact(1, 0); memcpy(s.p, &v, 1); break; }
